@@ -24,7 +24,7 @@ def main():
                 by.append(f"{prop} ({h.group(1) if h else 'violation'})")
             elif isinstance(d, dict) and d.get("exit") not in (0, 1, None):
                 by.append(f"{prop}: exit {d.get('exit')} (inconclusive/harness)")
-        needs = " ".join(m.get("needs", "").split())[:230]
+        needs = " ".join(m.get("needs", "").split())[:140]
         rows.append(f"| {sid} | {m['property']} | {needs} | {'; '.join(by) if by else '**missed**'} |")
     table = ("\n" + MARK + "\n\n### Seeded changes and the checks that catch them\n\n"
              "| seed | property | what it needs to manifest (author's note, abridged) | caught by (quick tier) |\n"
